@@ -307,6 +307,33 @@ def _tail_of(fv, r, tails):
     return False
 
 
+def exit_cause(fv, x):
+    """what makes a refusal exit happen, in a form that survives line shifts: the policy tag of the policy_error call
+    the exit is behind, else the name of the call whose failure leads (only) to that exit, else "explicit" """
+    blk = x["block"]
+    best = None
+    for bi, tag in getattr(fv, "policy_sites", []):
+        if tag and (bi == blk or blk in fv.reach(bi)) and blk not in fv.reach(0, cut_nodes={bi}):
+            best = (bi, "policy:" + tag) if best is None or bi > best[0] else best
+    if best:
+        return best[1]
+    cands = []
+    for bi, c in fv.b.calls():
+        if c.callee is None:
+            continue
+        nm = c.callee.name
+        if any(k in nm for k in ("FromResidual", "Try>::branch", "::map_err", "::into", "convert::From", "::ok_or", "fmt::", "format")):
+            continue
+        ee = fv.result_edges(bi, c, "err")
+        if not ee:
+            continue
+        if blk not in fv.reach(0, cut_edges=ee) and any(blk in fv.reach(v) or blk == v for (_, v) in ee):
+            cands.append((bi, nm))
+    if cands:
+        return "call:" + max(cands)[1].rsplit("::", 1)[-1]
+    return "explicit"
+
+
 def e5_pairs(ctx, eff, body, storage_pred, classes=None, extra_sites=(), _stack=None, kinds=("err",)):
     """[(site, exit)] where a mutation of the classes can be followed by a refusal exit.
     For a call site whose callee may both mutate and fail, exits reachable only through the call's own Err
@@ -371,6 +398,19 @@ def is_atomic(ctx, eff, body, storage_pred, classes=None, _stack=None, kinds=("e
 
 
 # ---------------------------------------------------------------------------- E6
+def _ack_sites(fv):
+    """return sites that acknowledge the request: Ok/Some/true for fallible functions, every return otherwise"""
+    rt = fv.b.local_tys[0]
+    if rt.startswith(("std::result::Result<", "std::option::Option<")) or rt == "bool":
+        return fv.success_sites()
+    out = []
+    for bi in fv.live_blocks():
+        t = fv.b.term(bi)
+        if t.kind == "ret":
+            out.append({"block": bi, "kind": "value", "line": t.line, "how": "return"})
+    return out
+
+
 class Durability:
     """persist-before-acknowledge.  classes: {name: persister_pred}.  A function *leaks* class D when some success
     return is reachable from a mutation of D without passing, after the mutation, the successful completion of a
@@ -426,7 +466,7 @@ class Durability:
                 if not es and c.target is not None:
                     es = {(bi, c.target)}
                 edges |= es
-        succ = fv.success_sites()
+        succ = _ack_sites(fv)
         r = bool(edges) and bool(succ) and all(fv.must_pass(s["block"], edges) for s in succ)
         self._leaks[key] = r
         return r
@@ -443,7 +483,7 @@ class Durability:
         fv = R.fnview(self.ctx, body)
         pe = self.persist_edges(fv, body, cls)
         out = []
-        succ = fv.success_sites()
+        succ = _ack_sites(fv)
         for (bi, k, cs, desc, ln) in self.eff.local_sites(body):
             if cls not in cs:
                 continue
